@@ -196,7 +196,40 @@ def minimise(ctx):
     if len(eq) != 1:
         raise AnalysisError("serialize: `=` emission not found")
     # the paths that skip `=value`: false edge of the minimisation guard.  Lossless only if v == ''.
-    guard_tests = [n for n in cfg.nodes if n.kind == "test" and "booleanAttributes" in norm(n.ast)]
+    # which (element, attribute) pairs are minimised: decided by evaluating the guard of the `=` emission
+    from ..partition import MiniInterp, Opaque
+    ba = ctx.ce.const("constants.py", "booleanAttributes")
+    gifs = [n for n in ast.walk(f.node) if isinstance(n, ast.If) and "minimize_boolean_attributes" in norm(n.test)
+            and any(isinstance(y, ast.Yield) and norm(y.value) == "self.encodeStrict('=')" for s_ in n.body for y in ast.walk(s_))]
+    if len(gifs) == 1:
+        def hook(node, local):
+            if norm(node) == "self.minimize_boolean_attributes":
+                return True
+            return NotImplemented
+        interp = MiniInterp(ctx.ce, f.module, expr_hook=hook)
+        elems = sorted(k for k in ba if k)[:6] + ["div", "my-element"]
+        attrs = sorted({a for v in ba.values() for a in v})
+        for el in elems:
+            for at in attrs:
+                keeps = None
+                try:
+                    keeps = interp.eval_guard(gifs[0].test, {"name": el, "k": at, "self": Opaque("self")})
+                except AnalysisError:
+                    pass
+                boolean_here = at in ba.get(el, ()) or at in ba.get("", ())
+                key = "minimise-scope[%s %s]" % (el, at)
+                if keeps is None:
+                    r.idiom("Q5", False, key, "%s:%d" % (REL, gifs[0].lineno), "the minimisation guard is not evaluable")
+                    break
+                r.check("Q5", keeps == (not boolean_here), key, "%s:%d" % (REL, gifs[0].lineno),
+                        "with minimize_boolean_attributes, <%s %s=...> %s its value although `%s` is %sa boolean attribute of <%s>: "
+                        "attributes that merely share a name with some element's boolean attribute lose their value (hidden=\"until-found\", "
+                        "a custom element's checked=\"mixed\")" % (el, at, "keeps" if keeps else "loses", at, "" if boolean_here else "not ", el),
+                        {"element": el, "attribute": at}, detail={"element": el, "attribute": at, "minimised": not keeps})
+    else:
+        r.idiom("Q5", False, "minimise-scope", f.where, "the guard of the `=` emission was not found")
+    guard_tests = [n for n in cfg.nodes if n.kind == "test" and ("booleanAttributes" in norm(n.ast) or (
+        len(gifs) == 1 and any(x is n.ast for x in ast.walk(gifs[0].test)) and "minimize_boolean_attributes" not in norm(n.ast)))]
     if not guard_tests:
         raise AnalysisError("serialize: boolean-attribute guard not found")
     value_tested = any(n.kind == "test" and norm(n.ast) in ("not v", "v == ''", "len(v) == 0", "v == k", "not attr_value")
@@ -217,7 +250,7 @@ def run(ctx):
         "delimiter, losslessness of attribute minimisation, and each tag omission vs. the parser handler that must re-imply it.")
     r.not_decided = NOT_DECIDED
     declare(ctx)
-    r.rule("Q5", "attribute minimisation drops the value only when that is lossless", floor=1)
+    r.rule("Q5", "attribute minimisation drops the value only when that is lossless, and only for the element's own boolean attributes", floor=50)
     quoting(ctx)
     follow(ctx)
     escaping(ctx)
